@@ -139,14 +139,16 @@ theorem fireTimeout_cons (x : Rid) {db : DB} (ha : InvA db) (hq : InvQ db) (hid 
         rw [hp']; simp [b2i]
       rw [hb, e2]; omega
     have e0 : openR x (db.getR hid) = hit x (db.getR hid).cmd.rid := by rw [openR_eq, hqd, hnp]; unfold hit b2i; simp
-    dsimp only
-    split
-    · have := hfin _ (h1.modKey (db.getR hid).cmd.key (fun k => { k with waited := false }))
-      refine ⟨this.1, ?_⟩
-      rw [answered_mk x _ _ _ _ _ (by decide), this.2]; omega
-    · have := hfin _ h1
-      refine ⟨this.1, ?_⟩
-      rw [answered_mk x _ _ _ _ _ (by decide), this.2]; omega
+    have hdw : InvQ (db.dropWaiter hid) ∧ openN x (db.dropWaiter hid) = openN x db - openR x (db.getR hid) := by
+      unfold DB.dropWaiter
+      simp only []
+      split
+      · exact hfin _ (h1.modKey (db.getR hid).cmd.key (fun k => { k with waited := false }))
+      · exact hfin _ h1
+    have hw := wake_cons x (ha.dropWaiter hid) hdw.1 (db.getR hid).cmd.key
+      [mkReply (db.getR hid).cmd R_TIMEOUT ((db.dropWaiter hid).getKey (db.getR hid).cmd.key).locked 0 ((db.dropWaiter hid).curData (db.getR hid).cmd.key)]
+    refine ⟨hw.1, ?_⟩
+    rw [hw.2, answered_mk x _ _ _ _ _ (by decide), hdw.2]; omega
 
 theorem fireExpire_cons (x : Rid) {db : DB} (ha : InvA db) (hq : InvQ db) (hid : Nat) (hne : (db.getR hid).expried = false) :
     InvQ (fireExpire db hid).1 ∧ answered x (fireExpire db hid).2 + openN x (fireExpire db hid).1 = openN x db := by
